@@ -128,13 +128,14 @@ theorem c05_panic_like_return (k : Kind) (s : St) (d : Nat) :
 /-- ... and the drainer's locked hand-over step is enabled right after it: a panicking job is followed
     by `next`. -/
 theorem c05_panic_then_next (k : Kind) (s s' : St) (d : Nat) (p : Bool)
-    (h : step k s (.finish d p) = some s') : (step k s' (.next d)).isSome = true := by
+    (h : step k s (.finish d p) = some s') : ∀ big, (step k s' (.next d big)).isSome = true := by
   simp only [step] at h
   split at h
   · rename_i x hx
     split at h
     · cases h
       have hd : d < s.drs.length := (List.getElem?_eq_some_iff.mp hx).1
+      intro big
       simp [step, List.getElem?_set_self hd]
     · cases h
   · cases h
@@ -146,7 +147,7 @@ def drainAct (s : St) : Option Act :=
   match s.drs with
   | [] => none
   | x :: _ => some (match x.ph with
-    | .spawned => .spawn 0 | .ready => .start 0 | .running => .finish 0 false | .finished => .next 0)
+    | .spawned => .spawn 0 false | .ready => .start 0 | .running => .finish 0 false | .finished => .next 0 false)
 
 /-- let the drainer run for `n` steps (no submitter, no close) -/
 def drain (k : Kind) : Nat → St → St
@@ -166,9 +167,10 @@ def mu (s : St) : Nat :=
 
 theorem take_progress (k : Kind) (s : St) (x : Drainer) (_hc : s.crash = false) (hd : s.drs = [x])
     (di : DInv k s x) (_hw : waiting k x) (r : Nat) (hr : 1 ≤ r) :
-    (take s 0 x).acc = s.acc ∧ mu (take s 0 x) < 4 * (s.list.length + 1 - x.taken) + r := by
+    (take k false s 0 x).acc = s.acc ∧ mu (take k false s 0 x) < 4 * (s.list.length + 1 - x.taken) + r := by
   have hle := di.le
   unfold take
+  rw [resetList_nil]
   split
   · simp [mu, hd]; omega
   · rename_i hlen
@@ -190,12 +192,12 @@ theorem drain_progress (k : Kind) (s : St) (x : Drainer) (hi : Inv k s) (hd : s.
   | spawned =>
     cases k with
     | conn =>
-      have hs : step .conn s (.spawn 0) = some { s with drs := [{ x with ph := .ready }] } := by
+      have hs : step .conn s (.spawn 0 false) = some { s with drs := [{ x with ph := .ready }] } := by
         simp [step, hd, hp]
       exact ⟨_, _, by simp [drainAct, hd, hp], hs, rfl, by simp [mu, hd, hp, rank]⟩
     | async =>
       have := take_progress .async s x hi.noCrash hd di (.inr ⟨hp, rfl⟩) 4 (by omega)
-      have hs : step .async s (.spawn 0) = some (take s 0 x) := by simp [step, hd, hp]
+      have hs : step .async s (.spawn 0 false) = some (take .async false s 0 x) := by simp [step, hd, hp]
       exact ⟨_, _, by simp [drainAct, hd, hp], hs, this.1, by simpa [mu, hd, hp, rank] using this.2⟩
   | ready =>
     have hs : step k s (.start 0) = some { s with drs := [{ x with ph := .running }], log := s.log ++ [.s x.job] } := by
@@ -207,7 +209,7 @@ theorem drain_progress (k : Kind) (s : St) (x : Drainer) (hi : Inv k s) (hd : s.
     exact ⟨_, _, by simp [drainAct, hd, hp], hs, rfl, by simp [mu, hd, hp, rank]⟩
   | finished =>
     have := take_progress k s x hi.noCrash hd di (.inl hp) 1 (by omega)
-    have hs : step k s (.next 0) = some (take s 0 x) := by simp [step, hd, hp]
+    have hs : step k s (.next 0 false) = some (take k false s 0 x) := by simp [step, hd, hp]
     exact ⟨_, _, by simp [drainAct, hd, hp], hs, this.1, by simpa [mu, hd, hp, rank] using this.2⟩
 
 theorem drain_completes (k : Kind) : ∀ (n : Nat) (s : St), Inv k s → mu s ≤ n →
@@ -325,18 +327,18 @@ theorem c05_close_after_earlier (k : Kind) (as : List Act) :
 /-- a run in which a second job is submitted while the first still runs, the first panics, and the
     connection is closed in between: both jobs run, in order, and a later `Execute` is refused -/
 example :
-    let s := run .conn init [.submit 1 false, .spawn 0, .start 0, .submit 2 false, .close, .finish 0 true,
-                             .submit 3 false, .next 0, .start 0, .finish 0 false, .next 0]
+    let s := run .conn init [.submit 1 false, .spawn 0 false, .start 0, .submit 2 false, .close, .finish 0 true,
+                             .submit 3 false, .next 0 false, .start 0, .finish 0 false, .next 0 true]
     s.done = [1, 2] ∧ s.acc = [1, 2] ∧ s.drs = [] ∧ s.panics = 1 ∧
       s.log = [.s 1, .e 1, .s 2, .e 2] := by decide
 
 /-- the hand-over race in the other order: the drainer has already reset the list, the submitter is head again -/
 example :
-    let s := run .conn init [.submit 1 false, .spawn 0, .start 0, .finish 0 false, .next 0, .submit 2 true, .spawn 0, .start 0]
+    let s := run .conn init [.submit 1 false, .spawn 0 false, .start 0, .finish 0 false, .next 0 false, .submit 2 true, .spawn 0 false, .start 0]
     s.done = [1] ∧ s.acc = [1, 2] ∧ runningJobs s = [2] := by decide
 
 example :
-    let s := run .async init [.submit 1 true, .submit 2 true, .spawn 0, .start 0, .finish 0 false, .next 0, .start 0, .finish 0 true, .next 0]
+    let s := run .async init [.submit 1 true, .submit 2 true, .spawn 0 false, .start 0, .finish 0 false, .next 0 false, .start 0, .finish 0 true, .next 0 true]
     s.done = [1, 2] ∧ s.drs = [] ∧ s.list = [] := by decide
 
 end ExecQ
